@@ -594,13 +594,13 @@ def check_nosig(case, ctx):
 
 SUBS = [
     Sub("signed_spends_verify", check_signed, strategy=lambda tier: base_case(),
-        budget={"quick": 450, "thorough": 20000}, required=["type:" + t for t in TYPES],
+        budget={"quick": 300, "thorough": 20000}, required=["type:" + t for t in TYPES],
         nontrivial_rule="m-of-n with n >= 2, or a transaction with more than one input"),
     Sub("unauthorised_never_verifies", check_mutated, strategy=lambda tier: mut_case(),
-        budget={"quick": 1300, "thorough": 60000},
+        budget={"quick": 650, "thorough": 60000},
         required=["mut:" + m for m in ALL_MUTS], nontrivial_rule="every case (all are negative)"),
     Sub("no_signature_no_spend", check_nosig, strategy=lambda tier: nosig_case(),
-        budget={"quick": 3000, "thorough": 120000},
+        budget={"quick": 1400, "thorough": 120000},
         required=["type:" + t for t in TYPES] + ["nonempty_scriptsig_on_native_witness_output",
                                                  "shape:keep_tail"],
         nontrivial_rule="every case (all are negative)"),
